@@ -1,4 +1,90 @@
+(* C26 — Segment file names encode path and start instant losslessly.
+   Only statements here; every proof is `exact <lemma of Proofs/C26_RecPath.v or Lib/Civil.v>`.
+   Model: Model/C26_RecPath.v (encode_go = Path.Encode, decode = Path.Decode after fix 2b44fe1). *)
 From Coq Require Import List ZArith.
-Require Import MTX.Lib.Civil MTX.Model.C26_RecPath.
-Theorem C26_placeholder : True. Proof. exact I. Qed.
-Print Assumptions C26_placeholder.
+Require Import MTX.Lib.Civil MTX.Model.C26_RecPath MTX.Proofs.C26_RecPath.
+Import ListNotations.
+Local Open Scope Z_scope.
+
+(* Every name the recorder writes is recognised as a segment of that path with that start instant
+   (to the microsecond when the format has %f, to the second otherwise), for every format in which
+   every '%' starts a placeholder, %path occurs once and at most one %z follows it; every path name
+   without newline and '%' (all valid names); every instant the fixed-width fields can hold
+   (4-digit year if %Y, 10-digit Unix time if %s; with %z an offset of whole minutes below 100 h,
+   without %z and %s the local offset `loff` that Decode applies equals the one Encode used). *)
+Theorem C26_roundtrip : forall loff f p t,
+  wf_format f = true -> name_ok p = true -> identifies (tokenize f) = true ->
+  encodable loff (tokenize f) t = true ->
+  decode loff f (encode_go f p t) =
+  Some (p, fst (trunc_start (tokenize f) t), snd (trunc_start (tokenize f) t)).
+Proof. exact roundtrip. Qed.
+Print Assumptions C26_roundtrip.
+
+Theorem C26_valid_names_ok : forall p, valid_name p = true -> name_ok p = true.
+Proof. exact valid_name_ok. Qed.
+Print Assumptions C26_valid_names_ok.
+
+(* Path.Encode's ten sequential ReplaceAll passes equal the placeholder-by-placeholder rendering *)
+Theorem C26_encode_by_tokens : forall f p t,
+  forallb (fun k => negb (tok_eqb k (TLit 37))) (tokenize f) = true -> Forall (fun c => c <> 37) p ->
+  encode_go f p t = encode f p t.
+Proof. exact encode_go_tokens. Qed.
+Print Assumptions C26_encode_by_tokens.
+
+(* A recognised name is, as a whole, the literals of the format with well-shaped fields in between
+   (digits of the placeholder's width, a zone Z|±dddd, a path text without newline): no foreign
+   prefix, suffix or infix. Partial: it does not say that the fields are ones Encode writes
+   (calendar range, canonical zone text, agreeing duplicates) — see C26_strict_whole_name_refuted. *)
+Theorem C26_whole_name_partial : forall loff f v r, decode loff f v = Some r ->
+  exists caps, v = fill (tokenize f) caps /\ forallb cap_shape caps = true
+               /\ map fst caps = nonlit (tokenize f) /\ r = decode_caps loff caps.
+Proof. exact whole_name. Qed.
+Print Assumptions C26_whole_name_partial.
+
+(* full strength of the second half is false of the code: month 13 is accepted (known finding) *)
+Theorem C26_strict_whole_name_refuted :
+  (exists r, decode 0 f_month v_month = Some r) /\ forall p t, v_month <> encode f_month p t.
+Proof. exact strict_whole_name_refuted. Qed.
+Print Assumptions C26_strict_whole_name_refuted.
+
+(* the code before fix 2b44fe1 (regex without anchors) recognised "a/1700000000.m~" for "%path/%s.m" *)
+Theorem C26_unanchored_refuted :
+  decode_unanchored 0 f_unanch v_unanch = Some ([97], 1700000000, 0) /\
+  (forall p t, v_unanch <> encode f_unanch p t) /\ decode 0 f_unanch v_unanch = None.
+Proof. exact unanchored_refuted. Qed.
+Print Assumptions C26_unanchored_refuted.
+
+(* outside wf_format the first half is false: "%path/%path_%s" attributes a/b's segment to b/a/b (known finding) *)
+Theorem C26_two_paths_refuted :
+  let p := [97; 47; 98] in let t := mkI 1700000000 0 0 in
+  valid_name p = true /\ identifies (tokenize f_two) = true /\ encodable 0 (tokenize f_two) t = true /\
+  decode 0 f_two (encode_go f_two p t) = Some ([98; 47; 97; 47; 98], 1700000000, 0).
+Proof. exact two_paths_refuted. Qed.
+Print Assumptions C26_two_paths_refuted.
+
+(* calendar arithmetic behind %Y..%S: both round trips, all days / all valid dates *)
+Theorem C26_days_civil_days : forall z,
+  let '(y, m, d) := civil_from_days z in days_from_civil y m d = z /\ 1 <= m <= 12 /\ 1 <= d <= 31.
+Proof. exact days_civil_days. Qed.
+Print Assumptions C26_days_civil_days.
+
+Theorem C26_civil_days_civil : forall y m d,
+  valid_date y m d = true -> civil_from_days (days_from_civil y m d) = (y, m, d).
+Proof. exact civil_days_civil. Qed.
+Print Assumptions C26_civil_days_civil.
+
+(* non-vacuity: the default format (made absolute, with extension) is well-formed and identifies the
+   instant; a concrete segment name round-trips in a +01:00 zone; a %z format likewise *)
+Definition f_default : list Z :=  (* /rec/%path/%Y-%m-%d_%H-%M-%S-%f.mp4 *)
+  [47;114;101;99;47; 37;112;97;116;104; 47; 37;89;45;37;109;45;37;100;95;37;72;45;37;77;45;37;83;45;37;102; 46;109;112;52].
+Definition f_zone : list Z :=     (* %path/%Y-%m-%d_%H-%M-%S-%f%z *)
+  [37;112;97;116;104; 47; 37;89;45;37;109;45;37;100;95;37;72;45;37;77;45;37;83;45;37;102;37;122].
+Example C26_example :
+  let t := mkI 1704099600 123456789 3600 in
+  wf_format f_default = true /\ identifies (tokenize f_default) = true /\
+  encodable 3600 (tokenize f_default) t = true /\ valid_name [97;47;98] = true /\
+  decode 3600 f_default (encode_go f_default [97;47;98] t) = Some ([97;47;98], 1704099600, 123456000) /\
+  wf_format f_zone = true /\ encodable 0 (tokenize f_zone) t = true /\
+  decode 0 f_zone (encode_go f_zone [97;47;98] t) = Some ([97;47;98], 1704099600, 123456000) /\
+  decode 3600 f_default (encode_go f_default [97;47;98] t ++ [46;98;97;107]) = None.
+Proof. vm_compute. repeat split. Qed.
